@@ -223,3 +223,138 @@ func lastLine(s string) string {
 	ls := strings.Split(strings.TrimSpace(s), "\n")
 	return ls[len(ls)-1]
 }
+
+// sweepSeeded applies every independently seeded change stored for this property (seeded/<id>/patch.diff, written by
+// sub-agents that saw only the property text) to a scratch copy of the repository's current tree and runs the
+// property's rules on it: each must be reported. One scratch copy and one subprocess per change, at most 8 in parallel,
+// everything removed afterwards. Like the other self-tests it never changes the exit status.
+func sweepSeeded(root, repo, prop string) {
+	metas, _ := filepath.Glob(filepath.Join(root, "seeded", "*", "meta.json"))
+	sort.Strings(metas)
+	type seed struct{ id, dir, needs string }
+	var todo []seed
+	for _, m := range metas {
+		b, err := os.ReadFile(m)
+		if err != nil {
+			continue
+		}
+		var meta struct {
+			ID       string `json:"id"`
+			Property string `json:"property"`
+			Needs    string `json:"needs_to_manifest"`
+		}
+		if json.Unmarshal(b, &meta) != nil || meta.Property != prop {
+			continue
+		}
+		todo = append(todo, seed{meta.ID, filepath.Dir(m), meta.Needs})
+	}
+	if len(todo) == 0 {
+		return
+	}
+	tmp, err := os.MkdirTemp("", "crdcheck-seeded-")
+	if err != nil {
+		return
+	}
+	defer os.RemoveAll(tmp)
+	// the current working tree (tracked files as they are on disk, build output and .git left out)
+	base := filepath.Join(tmp, "base")
+	cp := exec.Command("sh", "-c", fmt.Sprintf("mkdir -p %q && cd %q && git ls-files -z | xargs -0 -I{} cp --parents {} %q", base, repo, base))
+	if out, err := cp.CombinedOutput(); err != nil {
+		fmt.Printf("%s: seeded-change self-test skipped (copy: %v: %s)\n", prop, err, lastLine(string(out)))
+		return
+	}
+	exe, _ := os.Executable()
+	results := make([]sweepResult, len(todo))
+	sem := make(chan struct{}, 8)
+	var wg sync.WaitGroup
+	for i, sd := range todo {
+		wg.Add(1)
+		go func(i int, sd seed) {
+			defer wg.Done()
+			sem <- struct{}{}
+			defer func() { <-sem }()
+			r := sweepResult{ID: sd.id, Note: sd.needs}
+			dir := filepath.Join(tmp, fmt.Sprintf("s%d", i))
+			defer os.RemoveAll(dir)
+			if out, err := exec.Command("cp", "-r", base, dir).CombinedOutput(); err != nil {
+				r.Outcome, r.ByRules = "error", lastLine(string(out))
+				results[i] = r
+				return
+			}
+			ap := exec.Command("git", "apply", filepath.Join(sd.dir, "patch.diff"))
+			ap.Dir = dir
+			ap.Env = append(os.Environ(), "GIT_CEILING_DIRECTORIES="+tmp, "GIT_DIR=/nonexistent")
+			if _, err := ap.CombinedOutput(); err != nil {
+				r.Outcome = "context-changed"
+				results[i] = r
+				return
+			}
+			out, err := exec.Command(exe, "-p", prop, "-tier", "quick", "-repo", dir, "-noevidence").CombinedOutput()
+			code := 0
+			if ee, ok := err.(*exec.ExitError); ok {
+				code = ee.ExitCode()
+			} else if err != nil {
+				code = -1
+			}
+			switch code {
+			case 1:
+				r.Outcome = "detected"
+				rules := map[string]bool{}
+				for _, line := range strings.Split(string(out), "\n") {
+					if strings.HasPrefix(line, "FINDING ") {
+						for _, fld := range strings.Fields(line) {
+							if strings.HasPrefix(fld, "rule=") {
+								rules[strings.TrimPrefix(fld, "rule=")] = true
+							}
+						}
+					}
+				}
+				var rs []string
+				for k := range rules {
+					rs = append(rs, k)
+				}
+				sort.Strings(rs)
+				r.ByRules = strings.Join(rs, ",")
+			case 0:
+				r.Outcome = "missed"
+			default:
+				r.Outcome = "error"
+				r.ByRules = lastLine(string(out))
+			}
+			results[i] = r
+		}(i, sd)
+	}
+	wg.Wait()
+	detected, applicable := 0, 0
+	for _, r := range results {
+		if r.Outcome == "context-changed" {
+			continue
+		}
+		applicable++
+		if r.Outcome == "detected" {
+			detected++
+		}
+	}
+	fmt.Printf("%s: seeded-change self-test: %d/%d independently seeded changes reported (%d skipped: the patch no longer applies)\n", prop, detected, applicable, len(results)-applicable)
+	for _, r := range results {
+		if r.Outcome != "detected" && r.Outcome != "context-changed" {
+			fmt.Printf("  seeded change %s: %s %s\n", r.ID, r.Outcome, r.ByRules)
+		}
+	}
+	evp := filepath.Join(root, "evidence", prop+".json")
+	b, err := os.ReadFile(evp)
+	if err != nil {
+		return
+	}
+	var ev map[string]any
+	if json.Unmarshal(b, &ev) != nil {
+		return
+	}
+	if cov, _ := ev["coverage"].(map[string]any); cov != nil {
+		cov["independent_seeded_changes"] = applicable
+		cov["independent_seeded_changes_reported"] = detected
+		cov["independent_seeded_change_list"] = results
+		nb, _ := json.MarshalIndent(ev, "", " ")
+		os.WriteFile(evp, nb, 0o644)
+	}
+}
